@@ -85,3 +85,43 @@ def check_iadd(inp, res, err):
 
 RUNTIME = {"iadd": {"gen": gen_iadd, "call": call_iadd, "check": check_iadd,
                     "bounds": "random pairs of Statistics objects with up to 4 of 7 filter names each, counts in {0,1,5}"}}
+
+
+# ------------------------------------------------------------------------------ ReadLengthStatistics.__iadd__
+def gen_rl(rng):
+    def side():
+        return [[rng.choice([0, 5, 9, 14]), rng.choice([0, 5, 9, 14, 20])] for _ in range(rng.randint(0, 6))]
+    return {"a": side(), "b": side()}
+
+
+def call_rl(inp):
+    from cutadapt.statistics import ReadLengthStatistics
+    out = []
+    for pairs in (inp["a"], inp["b"]):
+        s = ReadLengthStatistics()
+        for l1, l2 in pairs:
+            s.update2("A" * l1, "C" * l2)
+        out.append(s)
+    a, b = out
+    a += b
+    w1, w2 = a.written_lengths()
+    return {"w1": {int(k): v for k, v in w1.items() if v}, "w2": {int(k): v for k, v in w2.items() if v}, "reads": a.written_reads(), "bp": list(a.written_bp())}
+
+
+def check_rl(inp, res, err):
+    if err:
+        return ["no_raise:" + err]
+    w1, w2 = {}, {}
+    for l1, l2 in inp["a"] + inp["b"]:
+        w1[l1] = w1.get(l1, 0) + 1
+        w2[l2] = w2.get(l2, 0) + 1
+    bad = []
+    if res["w1"] != w1 or res["w2"] != w2:
+        bad.append(f"written-length histograms after merging {res['w1']}, {res['w2']} != point-wise sums {w1}, {w2}")
+    n = len(inp["a"]) + len(inp["b"])
+    if res["reads"] != n or res["bp"] != [sum(k * v for k, v in w1.items()), sum(k * v for k, v in w2.items())]:
+        bad.append(f"written reads / bases {res['reads']}, {res['bp']} do not add up over the two chunks")
+    return bad
+
+
+RUNTIME["read_length_iadd"] = {"gen": gen_rl, "call": call_rl, "check": check_rl, "bounds": "two chunks of 0-6 written pairs, lengths from a small set (shared lengths frequent)"}
